@@ -758,10 +758,10 @@ class _PerMessageDeflateCompressor:
         else:
             self._mem_level = compression_options["mem_level"]
 
-        if persistent:
-            self._compressor: _Compressor | None = self._create_compressor()
-        else:
-            self._compressor = None
+        # Creating a compressor also validates the parameters (zlib cannot
+        # produce a raw deflate stream with an 8-bit window).
+        compressor = self._create_compressor()
+        self._compressor: _Compressor | None = compressor if persistent else None
 
     def _create_compressor(self) -> "_Compressor":
         return zlib.compressobj(
@@ -889,6 +889,13 @@ class WebSocketProtocol13(WebSocketProtocol):
             return
         except ValueError:
             gen_log.debug("Malformed WebSocket request received", exc_info=True)
+            if self.stream is None:
+                # The handshake was not completed and nothing has been
+                # sent yet: reject the upgrade request.
+                handler.clear()
+                handler.set_status(400)
+                handler.finish("Malformed WebSocket request")
+                return
             self._abort()
             return
 
@@ -933,7 +940,16 @@ class WebSocketProtocol13(WebSocketProtocol):
             if ext[0] == "permessage-deflate" and self._compression_options is not None:
                 # TODO: negotiate parameters if compression_options
                 # specifies limits.
-                self._create_compressors("server", ext[1], self._compression_options)
+                try:
+                    self._create_compressors(
+                        "server", ext[1], self._compression_options
+                    )
+                except ValueError:
+                    # Unknown parameter or unusable value: decline this
+                    # offer (RFC 7692 section 7.1) and look at the next one.
+                    self._compressor = None
+                    self._decompressor = None
+                    continue
                 if (
                     "client_max_window_bits" in ext[1]
                     and ext[1]["client_max_window_bits"] is None
